@@ -58,6 +58,7 @@ type Report struct {
 	Harnesses    []*HarnessReport
 	Lines        []string
 	Inconclusive []string
+	Notes        []string
 	WallS        float64
 	Exit         int
 	Violations   int
@@ -290,7 +291,7 @@ func (r *Report) selfTest(hs HarnessSpec, ex *Explorer, hr *HarnessReport, vd, r
 		data, _ := json.MarshalIndent(rv, "", " ")
 		dir := filepath.Join(vd, "replays", r.Prop)
 		os.MkdirAll(dir, 0o755)
-		path := filepath.Join(dir, fmt.Sprintf("%s-selftest%d.json", hs.Name, i))
+		path := filepath.Join(dir, fmt.Sprintf("%s-selftest%d-p%d.json", hs.Name, i, os.Getpid())) // (unique per run: two runs of one property may overlap)
 		os.WriteFile(path, data, 0o644)
 		outcome, out := nativeReplay(vd, repo, hs, path)
 		hr.SelfTestsRun++
@@ -514,6 +515,7 @@ func (r *Report) write(path string, P *Program) error {
 		"stdlib_functions_interpreted": stdFns,
 		"stubs_hit":                    intr,
 		"source_files_sha256_prefix":   files,
+		"notes":                        r.Notes,
 		"inconclusive":                 r.Inconclusive,
 		"known_findings_reported":      keys(r.KnownLines),
 		"exit":                         r.Exit,
